@@ -1259,9 +1259,9 @@ def correspondence(ctx, budget=None):
     rng = ctx.rng
     thorough = ctx.tier == "thorough"
     ctx.extra["rule"] = (
-        "pairs/triples of scripted sessions (14 script bodies: navigation, store/retrieve/delete, REST+RETR/STOR, RNFR/RNTO incl. a pending "
+        "pairs/triples of scripted sessions (16 script bodies: navigation, store/retrieve/delete, REST+RETR/STOR, RNFR/RNTO incl. a pending "
         "rename across other commands, TYPE+LIST/MLSD/MLST, APPE, re-login as another user, transfers without / with refused data connections "
-        "+ ABOR + listener renewal, error replies, QUIT, server-side session teardown (REST with a non-decimal digit, EPSV <arg>)) x login "
+        "+ ABOR + listener renewal, ABOR of an own held / half-sent transfer, error replies, QUIT, server-side session teardown (REST with a non-decimal digit, EPSV <arg>)) x login "
         "(same user twice, different users, password-less, anonymous, home inside the directory, failed PASS first) x disjoint directories "
         "with the same names and different contents x schedules: (1) command granularity: one script inserted as a block at every position "
         "of the other, strict alternation, random merges, a session crashing (RST) or closing anywhere; the same with simultaneous command "
